@@ -113,6 +113,56 @@ MAPPING_TEXTS = ["{1: 2}", "[5, 6]", "{'a': 1}", '{"a": 1}', "{None: 1}", "{(1, 
                  "()", "[]", "{}", "{1: 'x', 'b': 2}", "[['a', 1], ['b', 2]]", "{'a': {1: 2}}", "[{1: 2}]", "{b'k': 1}", "1, 2", "{1, 2}"]
 
 
+SUBCLASS_SRC = '''
+import datetime, decimal, fractions, pathlib, uuid
+class MyDate(datetime.date): pass
+class MyDateTime(datetime.datetime): pass
+class MyTime(datetime.time): pass
+class MyDelta(datetime.timedelta): pass
+class MyDecimal(decimal.Decimal): pass
+class MyFraction(fractions.Fraction): pass
+class MyPath(pathlib.PurePosixPath): pass
+class MyStr(str): pass
+class MyInt(int): pass
+class MyFloat(float): pass
+'''
+SUBCLASS_INPUTS = {
+    "MyDate": ["datetime.date(2024, 2, 29)", "'2024-02-29'", "datetime.datetime(2024, 1, 1, 5)", "19782"],
+    "MyDateTime": ["datetime.datetime(2024, 1, 1, 5, tzinfo=datetime.timezone.utc)", "'2024-01-01T05:00:00+00:00'", "datetime.date(2024, 2, 29)", "0"],
+    "MyTime": ["datetime.time(1, 2, 3)", "'01:02:03'", "5"], "MyDelta": ["datetime.timedelta(seconds=5)", "'PT5S'", "5"],
+    "MyDecimal": ["decimal.Decimal('1.5')", "'1.5'", "1"], "MyFraction": ["fractions.Fraction(1, 3)", "'1/3'", "2"],
+    "MyPath": ["pathlib.PurePosixPath('a/b')", "'a/b'"], "MyStr": ["'abc'", "5"], "MyInt": ["5", "'7'", "True"], "MyFloat": ["1.5", "'2.5'", "3"],
+}
+
+
+def check_subclass_targets(col):
+    """targets that are strict subclasses of the stdlib scalar classes ("date or subclasses"): an instance of the *base* class
+    is no instance of the target - what comes back is an instance of the target (or the call raises)"""
+    import datetime, decimal, fractions, pathlib, sys, types, typing
+    m = types.ModuleType("c03_subclasses")
+    sys.modules[m.__name__] = m
+    exec(SUBCLASS_SRC, m.__dict__)  # noqa: S102
+    ns_ = {"datetime": datetime, "decimal": decimal, "fractions": fractions, "pathlib": pathlib}
+    for name, srcs in SUBCLASS_INPUTS.items():
+        C = m.__dict__[name]
+        for shape, T, wrap_in, unwrap_out in (("root", C, lambda x: x, lambda r: [r]), ("list", list[C], lambda x: [x, x], list),
+                                               ("dict", dict[str, C], lambda x: {"k": x}, lambda r: list(r.values())),
+                                               ("optional", typing.Optional[C], lambda x: x, lambda r: [r])):
+            for src in srcs:
+                tl.clear_all()
+                x = eval(src, ns_)  # noqa: S307
+                col.ev()
+                col.nt(f"subclass|{name}|{shape}|{src}")
+                col.label("subclass-target")
+                k, r = tl.call(tl.unmarshal, T, wrap_in(x))
+                if k == "exc":
+                    continue
+                bad = [y for y in unwrap_out(r) if not isinstance(y, C)]
+                if bad:
+                    col.violation("conforms", {"subclass_target": name, "shape": shape, "input": src},
+                                  f"unmarshal({shape} of {name}, {src}) returned {r!r}: {type(bad[0]).__name__} is no {name}", bucket=f"subclass-target|{name}")
+
+
 def check_mapping_text(col):
     import typing
 
@@ -247,10 +297,14 @@ def plan(tier, seed):
     shards.append({"kind": "byteslike"})
     shards.append({"kind": "mapping-text"})
     shards.append({"kind": "late-definition"})
+    shards.append({"kind": "subclass-targets"})
     return shards
 
 
 def run_shard(shard, col):
+    if shard.get("kind") == "subclass-targets":
+        check_subclass_targets(col)
+        return
     if shard.get("kind") == "late-definition":
         check_late_definition(col)
         return
@@ -265,6 +319,9 @@ def run_shard(shard, col):
 
 
 def replay(clause, case, col):
+    if case.get("subclass_target"):
+        check_subclass_targets(col)
+        return
     if case.get("byteslike"):
         check_byteslike(col)
         return
